@@ -260,10 +260,19 @@ func (e *Engine) Discharge(obls []*Obligation, opt SolveOpts) error {
 	wg.Wait()
 	// second chance for timeouts (a loaded machine must not turn into an alarm): the undecided obligations are
 	// re-run one at a time with three times the limit. A `sat` answer is never retried.
+	nUnknown := 0
+	for _, j := range jobs {
+		if j.o.Status == "unknown" && j.o.Expect != "sat" {
+			nUnknown++
+		}
+	}
 	for _, j := range jobs {
 		o := j.o
 		if o.Status != "unknown" || o.Expect == "sat" {
 			continue
+		}
+		if nUnknown > 4 {
+			break // many undecided obligations are not a load artefact; do not spend minutes retrying them
 		}
 		r := race(j.file, opt.TimeoutS*3, false)
 		if r.verdict == "unsat" {
